@@ -5,8 +5,11 @@
 
    One record = one call and what the driver observed right after it, in this order:
         call(fn, o)   [poison, when the lock was seen poisoned]   [probe(ok|fail), run after every outcome but ok]
-     nw = "t": the call ran on a freshly built instance, i.e. on a new automaton (pure helpers: always);
-     nw = "f": the automaton continues from the state the previous record left (a wedged instance stays wedged).
+     nw = "t": the call ran on a freshly built instance, i.e. on a new automaton;
+     nw = "f": the automaton continues from the state the previous record left (a wedged instance stays wedged);
+     nw = "p": a pure helper - there is no instance (a new automaton per record, no probe applies).
+   A record of an instance call that leaves a probe owed (error without probe in the log) is BAD "probe-missing-after-error":
+   the instance would be discarded unprobed.
    Every event is put to the automaton (`Accepts`); an event without action is NOT the end of the validation: it
    becomes the class  <<"BAD", fn, Why, input-class>>  (Why = "panic" | "timeout" | "probe-failed-after-error" |
    "poisoned" | "wedged" | ...; fn / input-class = those of the call that wedged the instance when Why = "wedged")
@@ -55,19 +58,21 @@ Outcome(r) == IF HasX(r) /\ r.o \in Good /\ ExpectedOutcome(r.fn, r.x) \notin {"
               THEN << <<"BAD", r.fn, "outcome-differs-from-PathLex", r.o, r["in"]>> >> ELSE <<>>
 
 (* ---- one record ---- *)
-Start(r) == IF r.nw = "t" THEN S0 ELSE St
+Start(r) == IF r.nw \in {"t", "p"} THEN S0 ELSE St
 \* culprit of a wedge: the call of the record in which the instance became wedged
 Culprit(r, after) == IF Start(r).mode = "wedged" THEN <<who, whoc>>
                      ELSE IF after.mode = "wedged" THEN <<r.fn, r["in"]>> ELSE <<"-", "-">>
 BadClass(r, why, cul) == IF why = "wedged" THEN <<"BAD", cul[1], "wedged", cul[2]>> ELSE <<"BAD", r.fn, why, r["in"]>>
 JudgeT(r) == LET res == Run(Start(r), Events(r), <<>>)
                  cul == Culprit(r, res.s)
-                 bads == [i \in 1..Len(res.bad) |-> BadClass(r, res.bad[i], cul)] \o Outcome(r) IN
+                 miss == IF r.nw # "p" /\ res.s.mode = "usable" /\ res.s.owed /\ res.bad = <<>>
+                         THEN << <<"BAD", r.fn, "probe-missing-after-error", r["in"]>> >> ELSE <<>>
+                 bads == [i \in 1..Len(res.bad) |-> BadClass(r, res.bad[i], cul)] \o miss \o Outcome(r) IN
              [s |-> res.s, cul |-> cul,
               cs |-> IF bads = <<>> THEN << <<"ok", r.fn, NT(r)>> >> ELSE bads]
 
 \* an aggregate claims: n calls, all of them accepted.  Anything else in a summary is a broken log.
-SummaryOK(r) == r.o \in Good /\ r.n >= 1 /\ r.poisoned = "f" /\ r.probe = (IF r.o = "err" THEN "ok" ELSE "-")
+SummaryOK(r) == r.o \in Good /\ r.n >= 1 /\ r.poisoned = "f" /\ r.probe = (IF r.o = "err" /\ r.nw # "p" THEN "ok" ELSE "-")
 JudgeS(r) == LET res == Run(S0, Events(r), <<>>) IN
              [s |-> St, cul |-> <<who, whoc>>,
               cs |-> IF SummaryOK(r) /\ res.bad = <<>> THEN << <<"ok", r.fn, NT(r)>> >> ELSE << <<"BAD", r.fn, "summary-inconsistent", r["in"]>> >>]
